@@ -70,41 +70,38 @@ def observe(args):
         G.set_alpha(d, sn, st['alphas'], torch)
         if st['how'] == 'update':
             sn.update_softmax_options(hard=True)
-        else:
+        elif st['how'] == 'attr':
             for c in combs.values():
                 c.hard_softmax = True
+        # how == 'ctor': hard_softmax=True was given to the SuperNetModule constructor, nothing is called
         if st.get('temp') is not None:
-            sn.update_softmax_options(temperature=st['temp'])
-            if st['how'] == 'update':
-                sn.update_softmax_options(hard=True)   # (C11: a temperature update must not undo it; keep C03 independent of that)
-        o['win_impl'] = [combs[b].best_layer_index() for b in range(len(combs))]
-        try:
-            with torch.no_grad():
-                y = sn(x)
-            o['theta'] = [[float(v) for v in combs[b].theta_alpha] for b in range(len(combs))]
-            o['hard_exc'] = None
-        except Exception as e:  # noqa
-            y = None
-            o['hard_exc'] = 'EXC:%s:%s' % (type(e).__name__, str(e)[:200])
-        win = [max(range(len(a)), key=lambda i: (a[i], -i)) for a in st['alphas']]   # arg-max, first on ties
+            if st.get('temp_how') == 'attr':
+                for c in combs.values():
+                    c.softmax_temperature = st['temp']
+            else:
+                sn.update_softmax_options(temperature=st['temp'])
+                if st['how'] == 'update':
+                    sn.update_softmax_options(hard=True)   # (C11: a temperature update must not undo it; keep C03 independent of that)
+        win = [max(range(len(a)), key=lambda i: (a[i], -i)) for a in st['alphas']]   # arg-max of the raw coefficients, first on ties
         ref = G.eval_chain(d, m, expected_chain(d, win), x, torch)
         o['maxabs'] = float(ref.abs().max())
-        o['hard_eq_ref'] = y is not None and y.shape == ref.shape and bool(torch.equal(y, ref))
-        try:
-            e = sn.export()
-            o['exc'] = None
-        except Exception as ex_:  # noqa
-            e = None
-            o['exc'] = 'EXC:%s:%s' % (type(ex_).__name__, str(ex_)[:160])
-        if e is not None:
+
+        def do_export():
+            o['win_impl'] = [combs[b].best_layer_index() for b in range(len(combs))]
+            try:
+                e = sn.export()
+                o['exc'] = None
+            except Exception as ex_:  # noqa
+                o['exc'] = 'EXC:%s:%s' % (type(ex_).__name__, str(ex_)[:160])
+                return None, None
+            ye = None
             try:
                 with torch.no_grad():
                     ye = e.eval()(x)
-                o['export_eq_hard'] = y is not None and ye.shape == y.shape and bool(torch.equal(ye, y))
                 o['export_eq_ref'] = ye.shape == ref.shape and bool(torch.equal(ye, ref))
                 o['y0'] = [float(v) for v in ye.flatten()[:3]]
             except Exception as ex_:  # noqa
-                o['export_eq_hard'] = o['export_eq_ref'] = False
+                o['export_eq_ref'] = False
                 o['exc'] = 'EXC-run:%s:%s' % (type(ex_).__name__, str(ex_)[:160])
             o['seq'] = [list(s) for s in G.graph_sequence(e, d)]
             leaves = [(n, type(mod).__name__) for n, mod in e.named_modules() if n and len(list(mod.children())) == 0]
@@ -112,6 +109,26 @@ def observe(args):
             sd = e.state_dict()
             o['params_untouched'] = all(k in orig_params and bool(torch.equal(v, orig_params[k])) for k, v in sd.items() if not k.endswith('sn_combiner.alpha'))
             o['has_combiner'] = any('sn_combiner' in n for n, _ in e.named_modules())
+            return e, ye
+
+        e = ye = None
+        if st.get('export_first'):      # export before any forward pass with these coefficients
+            e, ye = do_export()
+        try:
+            with torch.no_grad():
+                y = sn(x)
+            o['theta'] = [[float(v) for v in combs[b].theta_alpha] for b in range(len(combs))]
+            o['hard_exc'] = None
+        except Exception as e_:  # noqa
+            y = None
+            o['hard_exc'] = 'EXC:%s:%s' % (type(e_).__name__, str(e_)[:200])
+        o['hard_eq_ref'] = y is not None and y.shape == ref.shape and bool(torch.equal(y, ref))
+        if not st.get('export_first'):
+            e, ye = do_export()
+        if ye is not None:
+            o['export_eq_hard'] = y is not None and ye.shape == y.shape and bool(torch.equal(ye, y))
+        elif e is not None:
+            o['export_eq_hard'] = False
         # the user's model itself must not have been altered by export
         o['seed_untouched'] = all(bool(torch.equal(v, orig_params[k])) for k, v in m.state_dict().items() if not k.endswith('sn_combiner.alpha'))
         out['obs'].append(o)
@@ -149,6 +166,22 @@ def settings_for(rng, d, quick):
     return sts, small
 
 
+def neartie_settings(rng, d):
+    """every gap x every temperature; runner-up earlier / later, option route and export-before/after-forward vary so that
+    each occurs for every gap and temperature over the stream.  'ctor' (hard_softmax=True given to the constructor,
+    temperature 1 untouched) comes first: nothing has been called on the wrapper yet."""
+    nbr = [len(b['branches']) for b in d['blocks']]
+    sts = []
+    combos = [(g, t) for g in G.NEAR_GAPS for t in (0.05, 1.0, 20.0, 100.0)]
+    ctor = [(g, None) for g in G.NEAR_GAPS]
+    for j, (gap, temp) in enumerate(ctor + combos + combos):
+        runner = 'later' if (temp is not None and j % 4 == 3) else 'earlier'
+        alphas = [G.gen_alpha_neartie(rng, k, gap, runner if k >= 2 else 'earlier')[0] for k in nbr]
+        sts.append({'alphas': alphas, 'how': 'ctor' if temp is None else rng.choice(['update', 'attr']), 'temp': temp,
+                    'temp_how': rng.choice(['update', 'attr']), 'export_first': (j % 2 == 0), 'neartie': {'gap': gap, 'runner': runner}})
+    return sts
+
+
 def check_obs(d, st, o, fails, tag):
     """the sentences of the property on one observation; appends (key, info)"""
     nbr = [len(b['branches']) for b in d['blocks']]
@@ -161,16 +194,23 @@ def check_obs(d, st, o, fails, tag):
     def bad(key, what):
         fails.append((key, dict(info, what=what)))
     if o['win_impl'] != win:
-        bad('winner-not-argmax', 'best_layer_index %r != arg-max of the coefficients %r' % (o['win_impl'], win))
+        bad('winner-not-argmax' + (':near-tied-coefficients' if st.get('neartie') else ''), 'best_layer_index %r != arg-max of the raw coefficients %r (coefficients %r, temperature %r)' % (o['win_impl'], win, st['alphas'], st.get('temp')))
+    near = st.get('neartie') is not None
+    if near:
+        suffix = ':near-tied-coefficients'
+    # near ties: float32 softmax may round the two largest coefficients to the same probability, so the hard FORWARD pass is not
+    # compared there (sampling is C10); the exported network must still be the branch of the largest RAW coefficient
     if o['hard_exc']:
         bad('hard-forward-raises', o['hard_exc'])
-    elif not o['hard_eq_ref']:
+    elif not o['hard_eq_ref'] and not near:
         bad('hard-eval-not-winner-branch', 'SuperNet.eval() with hard selection differs from running the winning branches')
     if o['exc']:
         bad('export-raises' + suffix, 'export() raised %s' % o['exc'])
         return
-    if not o['export_eq_hard']:
+    if not o['export_eq_hard'] and not near:
         bad('export-differs-from-hard-eval' + suffix, 'exported(x) != SuperNet(x) with hard selection (winners %r of %r branches)' % (win, nbr))
+    if not o.get('export_eq_ref'):
+        bad('export-not-argmax-branch' + suffix, 'exported(x) != the fixed layers and the branches with the largest raw coefficient (winners %r of %r branches, coefficients %r) run on x' % (win, nbr, st['alphas']))
     exp_chain = expected_chain(d, win)
     exp_names = sorted({d['names'][l[1]] for l in exp_chain if l[0] == 'M'})
     exp_tree = sorted((n, TYPE_OF[d['types'][d['names'].index(n)]]) for n in exp_names)
@@ -194,6 +234,8 @@ def run(ctx):
                 'coefficients = distinct multiples of 1/16 with the wanted winner on top, 12% with a tie for the maximum, plus the uniform initial ones; hard selection set through '
                 'update_softmax_options(hard=True) or the hard_softmax attribute, temperatures {1,.05,.5,5,20}; ALL winner combinations when every block has <= 4 branches, otherwise '
                 'sampled combinations that always include winners 1, 10, 11 and every branch ending in a functional op; one case = (network, coefficients); '
+                'NEAR-TIE stream: networks built with hard_softmax=True, per block the unique raw maximum 1/2/4 float32 ulps or 1e-6 above an earlier- (or later-) indexed runner-up, temperatures {.05,1,20,100} through '
+                'update_softmax_options or the attribute (T=1 untouched after construction first), export before / after the forward pass; there the exported branch must be the raw arg-max (hard forward not compared); '
                 'non-trivial = some winner is not branch 0; distinct by (network, winners)')
     ctx.assumptions += ['torch.fx graph surgery of export_graph is abstracted to its effect on the chain IR (pinned by node sequence / module tree / exact outputs per case)',
                         'layer semantics abstract (premise apply_ext); hard sampling modelled as one_hot(argmax alpha), coefficients >= 1/16 apart',
@@ -213,6 +255,13 @@ def run(ctx):
         d = G.gen_desc(rng, small=False)
         sts, small = settings_for(rng, d, ctx.quick)
         nets.append((d, sts, 'small' if small else 'large'))
+    # near-tie stream: dedicated networks built with hard_softmax=True in the constructor
+    for i in range(8 if ctx.quick else 30):
+        d = G.gen_desc(rng, small=(i % 2 == 0))
+        for blk in d['blocks']:
+            blk['hard'] = True
+            blk['gumbel'] = False
+        nets.append((d, neartie_settings(rng, d), 'neartie'))
     from concurrent.futures import ProcessPoolExecutor
     with ProcessPoolExecutor(min(NPROC, 12)) as ex:
         results = list(ex.map(observe, [(d, sts) for d, sts, _ in nets]))
@@ -231,6 +280,11 @@ def run(ctx):
                      sample={'n_branches': nbr, 'chain': d['chain'], 'winners': win, 'winner_kinds': kinds, 'exported_first_values': o.get('y0'), 'export': o['exc'] or 'ok'})
             for k in kinds:
                 ctx.dist['winner:' + k] += 1
+            if st.get('neartie'):
+                ctx.dist['near-tie gap %s, runner-up %s, T=%s' % (st['neartie']['gap'], st['neartie']['runner'], st.get('temp') or 1)] += 1
+                ctx.extra['near_tie_cases'] = ctx.extra.get('near_tie_cases', 0) + 1
+                if o.get('theta') is not None and any(sorted(t)[-1] != 1.0 or [int(v) for v in t].index(1) != w for t, w in zip(o['theta'], win)):
+                    ctx.extra['near_tie_cases_where_float32_softmax_ties'] = ctx.extra.get('near_tie_cases_where_float32_softmax_ties', 0) + 1
             if any(w in (1, 10, 11) for w, k in zip(win, nbr) if k >= 11):
                 ctx.dist['winner 1/10/11 of >=11 branches'] += 1
             if len([1 for it in d['chain'] if it[0] == 'block']) > len(nbr):
@@ -261,7 +315,7 @@ def run(ctx):
                 ctx.corr += 1
                 if mwin != o['win_impl']:
                     mism.append(('winner', ni, st, mwin, o['win_impl']))
-                if o.get('theta') is not None:
+                if o.get('theta') is not None and not st.get('neartie'):
                     ctx.corr += 1
                     mth = [[float(Fraction(a, b)) for a, b in t] for _, t in thetas]
                     if mth != o['theta']:
